@@ -806,10 +806,13 @@ type modSet struct {
 	heap   map[string]bool
 	ghost  map[string]bool
 	allocs bool
+	// heapBases: for heap keys only ever stored through `ident.field`, the base identifiers
+	heapBases   map[string][]*ast.Ident
+	heapUnknown map[string]bool // stored through something else: no frame is known
 }
 
 func (x *Exec) modifiedBy(nodes []ast.Node) *modSet {
-	m := &modSet{vars: map[types.Object]bool{}, heap: map[string]bool{}, ghost: map[string]bool{}}
+	m := &modSet{vars: map[types.Object]bool{}, heap: map[string]bool{}, ghost: map[string]bool{}, heapBases: map[string][]*ast.Ident{}, heapUnknown: map[string]bool{}}
 	var visitLHS func(e ast.Expr)
 	visitLHS = func(e ast.Expr) {
 		e = ast.Unparen(e)
@@ -829,11 +832,18 @@ func (x *Exec) modifiedBy(nodes []ast.Node) *modSet {
 			// mark heap fields along the path when going through pointers; also the root var
 			t := sel.Recv()
 			through := false
+			simpleBase, _ := ast.Unparen(e.X).(*ast.Ident)
 			for _, idx := range sel.Index() {
 				if pt, ok := t.Underlying().(*types.Pointer); ok {
 					su := pt.Elem().Underlying().(*types.Struct)
 					f := su.Field(idx)
-					m.heap[x.heapKeyField(pt.Elem(), f.Name(), f.Type())] = true
+					key := x.heapKeyField(pt.Elem(), f.Name(), f.Type())
+					m.heap[key] = true
+					if simpleBase != nil && len(sel.Index()) == 1 {
+						m.heapBases[key] = append(m.heapBases[key], simpleBase)
+					} else {
+						m.heapUnknown[key] = true
+					}
 					through = true
 					t = f.Type()
 				} else if su, ok := t.Underlying().(*types.Struct); ok {
@@ -852,10 +862,10 @@ func (x *Exec) modifiedBy(nodes []ast.Node) *modSet {
 				if su, ok := pt.Elem().Underlying().(*types.Struct); ok && !isOpaqueStruct(pt.Elem()) {
 					for i := 0; i < su.NumFields(); i++ {
 						f := su.Field(i)
-						m.heap[x.heapKeyField(pt.Elem(), f.Name(), f.Type())] = true
+						m.markHeapUnknown(x.heapKeyField(pt.Elem(), f.Name(), f.Type()))
 					}
 				} else {
-					m.heap[x.heapKeyCell(pt.Elem())] = true
+					m.markHeapUnknown(x.heapKeyCell(pt.Elem()))
 				}
 			}
 		}
@@ -899,14 +909,21 @@ func (x *Exec) modifiedBy(nodes []ast.Node) *modSet {
 			if su, ok := o.Type().Underlying().(*types.Struct); ok && !isOpaqueStruct(o.Type()) {
 				for i := 0; i < su.NumFields(); i++ {
 					f := su.Field(i)
-					m.heap[x.heapKeyField(o.Type(), f.Name(), f.Type())] = true
+					m.markHeapUnknown(x.heapKeyField(o.Type(), f.Name(), f.Type()))
 				}
 			} else {
-				m.heap[x.heapKeyCell(o.Type())] = true
+				m.markHeapUnknown(x.heapKeyCell(o.Type()))
 			}
 		}
 	}
 	return m
+}
+
+// markHeapUnknown marks a heap key as modified through a base that is not a
+// plain identifier (no per-object frame can be assumed for it).
+func (m *modSet) markHeapUnknown(key string) {
+	m.heap[key] = true
+	m.heapUnknown[key] = true
 }
 
 // ---------------------------------------------------------------------------
